@@ -13,6 +13,7 @@ EXPLANATION = (
     "sort_by_attr calls no Vec/slice mutator other than the two sorts. R16.5 kind(): Leaf<Parent; EntryLocation derives "
     "Ord over (file, line, col) in that order. Decides the wiring of the comparators, not the string arithmetic."
     " R16.6 argument ordering anchors. R16.7 path summaries of the Name arm of cmp_bench_arg_names, decided against a four-class operand model (unsigned integer, negative integer, other number, not a number): every class pair gets the answer a total value order needs - integers exactly, numbers by f64 value, a number against a non-number ranked by class one fixed way round, an integer against a non-integer of equal f64 value ranked one fixed way round, natural order only for two non-numbers; all 16 class pairs are covered. R16.5 also: the location of a node without its own position is computed from location() of each child, recursively (earliest-descendant). R16.8 digit runs compare by numeric value only: on the path where both tokens are digit runs Token::cmp returns exactly cmp_int(self.text, other.text) - no further tie-break inside the token - and the plain string comparison otherwise.")
+EXPLANATION += (" R16.9 natural_cmp is, on its only path, Iterator::cmp of a tokenizer over exactly `a` with a tokenizer over exactly `b` (no prefix skipping or slicing before tokenising).")
 NOT_DECIDED = ["transitivity of natural_cmp itself (tokenisation) and of the tree comparator beyond the key structure R16.1-R16.5 decide; the argument comparator is decided against a four-class operand model (R16.7), trusting that every integer string parses as f64",
                "digit-run arithmetic in cmp_int and tokenisation", "panic-freedom of sort_by under an inconsistent order"]
 
@@ -814,7 +815,37 @@ def r16_8(ctx, prog, crate):
     ctx.check(both >= 1, "R16.8", ["Token::cmp", "digit-run-path"], "no path of Token::cmp handles two digit runs", b.where(0))
 
 
+def r16_9(ctx, prog, crate):
+    """Natural order compares the token sequences of the two *whole* names: natural_cmp is, on its only path, the
+    lexicographic comparison (Iterator::cmp) of a tokenizer over exactly `a` with a tokenizer over exactly `b`. Skipping a
+    shared prefix or any other slicing before tokenising can cut a digit run in two (n100 / n16 -> 00 / 6), after which the
+    run no longer compares by numeric value."""
+    from lib.patheval import PathEval
+    b = prog.body("util::sort::natural_cmp", crate)
+    if not ctx.anchor("R16.9", "natural_cmp", 1 if b else 0, 1):
+        return
+    ctx.saw(b)
+    sums = PathEval(b).run()
+    if not ctx.check(bool(sums) and len(sums) == 1 and not sums[0].conds, "R16.9", ["natural_cmp", "single-unconditional-path"],
+                     "natural_cmp has %s paths / conditions: the comparison must not depend on a pre-scan of the names" % (len(sums) if sums else "unsummarisable"), b.where(0)):
+        return
+    r = sums[0].ret
+
+    def whole(e, k):
+        """a tokenizer (struct literal or crate-local constructor) over exactly parameter k"""
+        me = {("sptr", (k, ())), ("ptr", (k, ())), ("arg", k, ())}
+        if e[0] == "adt" and len(e[3]) == 1:
+            return e[3][0] in me
+        if e[0] == "site" and len(e) > 3 and len(e[3]) == 1:
+            return e[3][0] in me
+        return False
+    ok = r[0] == "site" and r[1].rsplit("::", 1)[-1] == "cmp" and len(r[3]) == 2 and whole(r[3][0], 1) and whole(r[3][1], 2)
+    ctx.check(ok, "R16.9", ["natural_cmp", "token-sequences-of-the-whole-names"],
+              "natural_cmp is not the lexicographic comparison of the token sequences of exactly `a` and exactly `b`", b.where(0))
+
+
 def run(ctx, prog, crate):
+    r16_9(ctx, prog, crate)
     r16_8(ctx, prog, crate)
     r16_7(ctx, prog, crate)
     r16_6(ctx, prog, crate)
